@@ -21,6 +21,9 @@ def kernel_loop(s, kern):
 
 def check(ctx):
     p = ctx.prog
+    no_use_after_move(ctx, 'move.no_use_after_move', ['hep::plain_iteration', 'hep::vegas_iteration', 'hep::multi_channel_iteration', 'hep::accumulator::result'], opaque=ACC_OPAQUE, minimum=3)
+    # counters are counted and reported in std::size_t
+    counters_full_width(ctx, 'prec.counter_width', ['hep::accumulator::', 'hep::plain_iteration', 'hep::vegas_iteration', 'hep::multi_channel_iteration', 'hep::create_result'])
     # all arithmetic behind this property happens in the numeric type T of the instantiation
     single_precision(ctx, 'prec.single_type', ['hep::accumulator::', 'hep::accumulate', 'hep::plain_iteration', 'hep::vegas_iteration', 'hep::multi_channel_iteration', 'hep::mc_result::', 'hep::create_result', 'hep::projector::'], 1)
     # no constructor of the classes this property computes with leaves a member indeterminate
@@ -368,6 +371,9 @@ def _shared(ctx):
     # the value accumulated is f * weight with THE weight of the point: a lazily evaluated weight
     # must return the same number every time it is asked (shared with C01)
     share(ctx, 'C01', 'R6/C01.', ['R2.'])
+    # under MPI the adjustment data stored with a result are the reduced data of THIS iteration whatever order the
+    # compiler evaluates constructor arguments in (shared with C04)
+    share(ctx, 'C04', 'R7/C04.', ['R6.evaluation_order', 'R6.adjustment_reduced', 'R6.reduced_result'])
 
 
 def algebra_equal(a, b):
